@@ -73,6 +73,11 @@ def carries_line(e, fi):
         return e.attr == "lineno"
     if isinstance(e, ast.Call) and isinstance(e.func, ast.Attribute) and e.func.attr == "get" and isinstance(e.func.value, ast.Attribute) and e.func.value.attr == "argument_lines":
         return True
+    if isinstance(e, ast.Call) and isinstance(e.func, ast.Name):
+        # line_of = self.argument_lines.get; ... line_of("X")
+        defs = [n.value for n in own_nodes(fi.node) if isinstance(n, ast.Assign) and any(isinstance(t_, ast.Name) and t_.id == e.func.id for t_ in n.targets)]
+        if len(defs) == 1 and isinstance(defs[0], ast.Attribute) and defs[0].attr == "get" and isinstance(defs[0].value, ast.Attribute) and defs[0].value.attr == "argument_lines":
+            return True
     if isinstance(e, ast.Subscript) and isinstance(e.value, ast.Attribute) and e.value.attr in ("argument_lines", "list_linenos"):
         return True
     if isinstance(e, ast.IfExp):
